@@ -146,6 +146,9 @@ def mutations(text, version, rng, per_kind=1):
         p = rng.randrange(body_start + 20, last)
         out.append(('illformed', f'file truncated at byte {p}', text[:p]))
     out.append(('illformed', 'final end tag missing', text[:last]))
+    out.append(('illformed', 'empty file', ''))
+    out.append(('illformed', 'file with one blank line', '\n'))
+    out.append(('illformed', 'header only', text[:body_start]))
     out.append(('illformed', 'second root element', text + '<LexicalResource/>\n'))
     out.append(('illformed', 'text after the root element', text + 'trailing\n'))
 
